@@ -54,6 +54,7 @@ func (w *World) renderQuery(o *Obl, forCVC5 bool) string {
 	usesInv := false
 	itoaArgs := map[string]*Term{}
 	runesArgs := map[string]*Term{}
+	rangeTerms := map[string]*Term{}
 	for _, t := range all {
 		walk(t, func(s *Term) {
 			if s.Kind != KApp || len(s.Args) == 0 {
@@ -82,6 +83,9 @@ func (w *World) renderQuery(o *Obl, forCVC5 bool) string {
 			}
 			if op == "runes_of" {
 				runesArgs[s.Args[0].String()] = s.Args[0]
+			}
+			if (op == "str_count" || op == "str_lastidx") && len(s.Args) == 4 {
+				rangeTerms[s.String()] = s
 			}
 			if op == "itoa_inv" {
 				delete(ufs, op)
@@ -154,6 +158,10 @@ func (w *World) renderQuery(o *Obl, forCVC5 bool) string {
 			b.WriteString("(assert (forall ((s!r String)) (! (and (>= (Sl_Int_len (runes_of s!r)) 0) (<= (Sl_Int_len (runes_of s!r)) (str.len s!r)) (= (= (Sl_Int_len (runes_of s!r)) 0) (= (str.len s!r) 0)) (not (Sl_Int_nil (runes_of s!r))) (=> (and (>= (str.len s!r) 1) (< (str.to_code (str.at s!r 0)) 128)) (= (select (Sl_Int_arr (runes_of s!r)) 0) (str.to_code (str.at s!r 0))))) :pattern ((runes_of s!r)))))\n")
 		}
 	}
+	if o.Kind != "vacuity" {
+		// (a vacuity guard asks for a model; the instantiated library facts only make that harder to find)
+		b.WriteString(strRangeAxioms(rangeTerms, vars))
+	}
 	if len(itoaArgs) == 0 && usesInv {
 		b.WriteString("(declare-fun itoa_inv (String) Int)\n")
 	}
@@ -204,6 +212,75 @@ func (w *World) renderQuery(o *Obl, forCVC5 bool) string {
 	}
 	b.WriteString("(assert (not " + o.Goal.String() + "))\n")
 	b.WriteString("(check-sat)\n")
+	return b.String()
+}
+
+// strRangeAxioms: the assumed facts about strings.Count / strings.LastIndex (lib.go, strRangeFn),
+// instantiated for the closed terms of the query: sign and containment per term, additivity /
+// "the later range wins" for every two ranges of the same string that start at the same index.
+func strRangeAxioms(terms map[string]*Term, vars map[string]string) string {
+	if len(terms) == 0 {
+		return ""
+	}
+	var b strings.Builder
+	keys := make([]string, 0, len(terms))
+	for k, t := range terms {
+		fv := map[string]string{}
+		collectVars(t, fv)
+		closed := true
+		for v := range fv {
+			if _, ok := vars[v]; !ok {
+				closed = false
+			}
+		}
+		if closed {
+			keys = append(keys, k)
+		}
+	}
+	sort.Strings(keys)
+	done := map[string]bool{}
+	perTerm := func(t *Term) {
+		k := t.String()
+		if done[k] {
+			return
+		}
+		done[k] = true
+		s, sep, lo, hi := t.Args[0].String(), t.Args[1].String(), t.Args[2].String(), t.Args[3].String()
+		inR := fmt.Sprintf("(and (<= 0 %s) (<= %s %s) (<= %s (str.len %s)))", lo, lo, hi, hi, s)
+		sub := fmt.Sprintf("(str.substr %s %s (- %s %s))", s, lo, hi, lo)
+		if t.Op == "str_count" {
+			fmt.Fprintf(&b, "(assert (>= %s 0))\n", k)
+			fmt.Fprintf(&b, "(assert (=> (and %s (> (str.len %s) 0)) (= (> %s 0) (str.contains %s %s))))\n", inR, sep, k, sub, sep)
+		} else {
+			fmt.Fprintf(&b, "(assert (>= %s (- 1)))\n", k)
+			fmt.Fprintf(&b, "(assert (=> %s (= (>= %s 0) (str.contains %s %s))))\n", inR, k, sub, sep)
+			fmt.Fprintf(&b, "(assert (=> (and %s (>= %s 0)) (and (<= (+ %s (str.len %s)) (- %s %s)) (= (str.substr %s (+ %s %s) (str.len %s)) %s))))\n", inR, k, k, sep, hi, lo, s, lo, k, sep, sep)
+		}
+	}
+	for _, k := range keys {
+		perTerm(terms[k])
+	}
+	for _, k1 := range keys {
+		for _, k2 := range keys {
+			t1, t2 := terms[k1], terms[k2]
+			if k1 == k2 || t1.Op != t2.Op || !sameTerm(t1.Args[0], t2.Args[0]) || !sameTerm(t1.Args[1], t2.Args[1]) || !sameTerm(t1.Args[2], t2.Args[2]) || sameTerm(t1.Args[3], t2.Args[3]) {
+				continue
+			}
+			if t1.Args[1].Kind != KStr || len(t1.Args[1].S) != 1 {
+				continue // a longer separator can straddle the cut
+			}
+			// t1 = [lo,mid), t2 = [lo,hi): if mid <= hi the rest [mid,hi) completes the picture
+			s, sep, lo, mid, hi := t1.Args[0], t1.Args[1], t1.Args[2], t1.Args[3], t2.Args[3]
+			rest := App(t1.Op, "Int", s, sep, mid, hi)
+			perTerm(rest)
+			guard := fmt.Sprintf("(and (<= 0 %s) (<= %s %s) (<= %s %s) (<= %s (str.len %s)))", lo, lo, mid, mid, hi, hi, s)
+			if t1.Op == "str_count" {
+				fmt.Fprintf(&b, "(assert (=> %s (= %s (+ %s %s))))\n", guard, k2, k1, rest)
+			} else {
+				fmt.Fprintf(&b, "(assert (=> %s (= %s (ite (>= %s 0) (+ (- %s %s) %s) %s))))\n", guard, k2, rest, mid, lo, rest, k1)
+			}
+		}
+	}
 	return b.String()
 }
 
